@@ -168,8 +168,18 @@ pub fn record(output: &str) {
         let mut p = robots::geometry(robots::GEOMETRY_CLASSES[k % robots::GEOMETRY_CLASSES.len()], &mut r);
         p = robots::convention(p, r.gen_range(0..64), ["zero", "quarter", "random"][k % 3], &mut r);
         let sc = stacks[(k / 7) % stacks.len()];
-        let robot = Robot::new(p, solver::stack_for(sc, &mut r), None);
-        let q: Joints = std::array::from_fn(|_| r.gen_range(-3.0..3.0));
+        // miniature robots (a table-top arm): a well conditioned Jacobian with a tiny determinant
+        if k % 9 == 4 { let f = r.gen_range(0.03..0.08); p.a1 *= f; p.a2 *= f; p.b *= f; p.c1 *= f; p.c2 *= f; p.c3 *= f; p.c4 *= f; }
+        let mut q: Joints = std::array::from_fn(|_| r.gen_range(-3.0..3.0));
+        // robots with limits, standing exactly at (or within half a step of) an upper limit
+        let limits = if k % 5 == 2 {
+            let to: Joints = std::array::from_fn(|i| q[i] + r.gen_range(0.3..1.0));
+            let from: Joints = std::array::from_fn(|i| q[i] - r.gen_range(0.3..1.0));
+            let j = r.gen_range(0..6);
+            q[j] = to[j] - if r.gen_bool(0.5) { 0.0 } else { EPS[k % 3] * 0.5 };
+            Some((from, to, 0.0))
+        } else { None };
+        let robot = Robot::new(p, solver::stack_for(sc, &mut r), limits);
         out.put(event(&robot, &q, EPS[k % 3], &mut r, sc));
     }
     out.finish();
